@@ -136,14 +136,18 @@ def task_cases(ctx, n):
              ('tcp', 20, 70, 'drr'), ('tcp', 20, 70, 'rdcdr'), ('tcp', 15, 100, 'ddd'),
              ('tcp', 20, 70, 'rrer'), ('tcp', 10, 100, 'rrrerr'), ('tcp', 20, 70, 'er'), ('tcp', 30, 70, 'qr'), ('tcp', 20, 70, 'rqqr'), ('tcp', 20, 70, 'qqe'), ('tcp', 15, 100, 'rqer'),
              ('rtu', 20, 70, 'rrror'), ('rtu', 20, 70, 'oro'), ('rtu', 10, 40, 'rrrrr'), ('rtu', 20, 70, 'o'),
-             ('rtuserver', 20, 70, 'rrror'), ('rtuserver', 20, 70, 'oro'), ('rtuserver', 10, 40, 'rrrrr'), ('rtuserver', 20, 70, 'o')]
+             ('rtuserver', 20, 70, 'rrror'), ('rtuserver', 20, 70, 'oro'), ('rtuserver', 10, 40, 'rrrrr'), ('rtuserver', 20, 70, 'o'),
+             ('rtuserver', 30, 70, 'lr'), ('rtuserver', 20, 70, 'rllr'), ('rtuserver', 25, 60, 'lol')]
     while len(cases) < n:
         w = r.random()
         tls = w < 0.25
         mn, mx = r.choice([(20, 70), (10, 10), (15, 100), (5, 40), (30, 30), (8, 64), (25, 60)])
         ln = r.choice([2, 3, 4, 5, 6, 7, 8])
         if w > 0.7:
-            cases.append(('rtu' if w > 0.85 else 'rtuserver', mn, mx, ''.join(r.choices('ro', weights=(5, 2), k=ln))))
+            if w > 0.85:
+                cases.append(('rtu', mn, mx, ''.join(r.choices('ro', weights=(5, 2), k=ln))))
+            else:
+                cases.append(('rtuserver', mn, mx, ''.join(r.choices('rol', weights=(4, 2, 2), k=ln))))
             continue
         script = ''.join(r.choices('rc' if tls else 'rcsdeq', weights=(5, 2) if tls else (5, 1, 2, 1, 1, 1), k=ln))
         cases.append((f'tls:{certs}' if tls else 'tcp', mn, mx, script))
@@ -155,7 +159,10 @@ def task_to_coq(c):
     tls = variant.startswith('tls')
     evs, ops = [], []
     for ch in script:
-        if ch == 'd':
+        if ch == 'l':
+            evs += ['AttemptFails', 'Elapsed']      # device missing; a decode-level command during the wait changes nothing
+            ops += ['Fail']
+        elif ch == 'd':
             evs += ['AttemptFails', 'Interrupt']    # refused; the wait is abandoned by disable + enable
             ops += ['Fail']
         elif ch == 'e':
@@ -235,7 +242,7 @@ def run_task_level(ctx):
             # thorough: additionally ALL connect-outcome sequences of length <= 4 for every task variant (20/70 ms)
             import itertools
             certs = os.path.join(vlib.REPO, 'certs', 'ca_chain')
-            for variant, letters in (('tcp', 'rcseq'), (f'tls:{certs}', 'rc'), ('rtu', 'ro'), ('rtuserver', 'ro')):
+            for variant, letters in (('tcp', 'rcseq'), (f'tls:{certs}', 'rc'), ('rtu', 'ro'), ('rtuserver', 'rol')):
                 for ln in (1, 2, 3, 4):
                     for sc in itertools.product(letters, repeat=ln):
                         cases.append((variant, 20, 70, ''.join(sc)))
@@ -260,7 +267,7 @@ def run_task_level(ctx):
         js = task_judge(im[0], bo[0])
         if not js or js[0] != key:
             small, im, bo, js = c, [i], [b], j
-        ctx.violation(key, f'{"RTU server" if small[0] == "rtuserver" else small[0].split(":")[0] + " client"} task, retry {small[1]}..{small[2]} ms, connect outcomes "{small[3]}" (r=refused/no device c=accepted+closed s=served o=port opened then lost d=refused+disable/enable during the wait e=connected then disable/enable q=refused+request during the wait): {js[1]}',
+        ctx.violation(key, f'{"RTU server" if small[0] == "rtuserver" else small[0].split(":")[0] + " client"} task, retry {small[1]}..{small[2]} ms, connect outcomes "{small[3]}" (r=refused/no device c=accepted+closed s=served o=port opened then lost d=refused+disable/enable during the wait e=connected then disable/enable q=refused+request during the wait l=no device+level change during the wait): {js[1]}',
                       {'task_cases': [list(small)], 'impl': im[0], 'model|spec': bo[0], 'original_case': list(c)},
                       no_failing_input=(key == 'task.model-differs-from-impl'))
     ctx.oblige('correspondence:task-level-delays', bad == 0, f'{bad} of {len(cases)} scenarios differ')
